@@ -2,14 +2,14 @@
 package c04
 
 import (
-	"time"
 	"cmp"
-	"math"
 	"fmt"
+	"math"
 	"runtime"
 	"sort"
 	"strings"
 	"testing"
+	"time"
 
 	"github.com/esimov/gogu/bstree"
 	"verif/pbt"
@@ -899,7 +899,9 @@ func typesProp(c TypesCase, r *pbt.R) error {
 	case 2:
 		return runTypes(c, "uint8", func(i int) uint8 { return uint8(i % 85 * 3) }, func(a, b uint8) bool { return a < b }, r)
 	default:
-		return runTypes(c, "string ordered by length, then bytes", func(i int) string { return strings.Repeat("z", i%4) + string(rune('a'+i/4%26)) + strings.Repeat("y", i/104) },
+		return runTypes(c, "string ordered by length, then bytes", func(i int) string {
+			return strings.Repeat("z", i%4) + string(rune('a'+i/4%26)) + strings.Repeat("y", i/104)
+		},
 			func(a, b string) bool {
 				if len(a) != len(b) {
 					return len(a) < len(b)
@@ -1006,6 +1008,95 @@ func travProp(c TravCase, r *pbt.R) error {
 	return nil
 }
 
+// ---------------------------------------------------------------------------
+// endurance: ONE tree lives through tens of thousands of insertions and removals
+
+// EnduranceCase: Resident keys stay in the tree for the whole case; Churn further keys are upserted and deleted again
+// (each lives for Lag later insertions), in ascending, descending or scattered order. The residents are looked up, Size is
+// read and Traverse is counted at checkpoints: every 4096 removals, and after every removal in the neighbourhoods of the
+// 4096th, 32768th and 65536th one.
+type EnduranceCase struct {
+	Resident int  `json:"resident"`
+	Churn    int  `json:"churn"`
+	Lag      int  `json:"lag"`
+	Order    int  `json:"order"`
+	Desc     bool `json:"desc"`
+}
+
+func enduranceProp(c EnduranceCase, r *pbt.R) error {
+	res, churn, lag := 1+((c.Resident-1)%200+200)%200, ((c.Churn%150000)+150000)%150000, 1+((c.Lag-1)%64+64)%64
+	less := func(a, b int) bool { return a < b }
+	if c.Desc {
+		less = func(a, b int) bool { return a > b }
+	}
+	t := bstree.New[int, int](less)
+	// residents: odd multiples of 1000003 spread over the key space; churn keys: even numbers
+	resKey := func(i int) int { return (2*i+1)*1000003 - 50000000 }
+	for i := 0; i < res; i++ {
+		t.Upsert(resKey(i), -i)
+	}
+	churnKey := func(i int) int {
+		switch ((c.Order % 3) + 3) % 3 {
+		case 0:
+			return 2 * i
+		case 1:
+			return -2 * i
+		}
+		return 2 * ((i * 7919) % 1000003)
+	}
+	live := 0
+	check := func(removed int) error {
+		ctx := fmt.Sprintf("one bstree (descending comparator: %v) with %d resident keys, after %d removals of short-lived keys (each removed %d insertions after its own)", c.Desc, res, removed, lag)
+		if got := t.Size(); got != res+live {
+			return fmt.Errorf("%s: Size() = %d, want %d", ctx, got, res+live)
+		}
+		for i := 0; i < res; i++ {
+			if it, err := t.Get(resKey(i)); err != nil || it.Val != -i {
+				return fmt.Errorf("%s: Get(resident key %d) = (%v, %v), want the value %d", ctx, resKey(i), it, err, -i)
+			}
+		}
+		n := 0
+		t.Traverse(func(bstree.Item[int, int]) { n++ })
+		if n != res+live {
+			return fmt.Errorf("%s: Traverse visited %d items, want %d", ctx, n, res+live)
+		}
+		return nil
+	}
+	removed := 0
+	for i := 0; i < churn+lag; i++ {
+		if i < churn {
+			t.Upsert(churnKey(i), i)
+			live++
+		}
+		if j := i - lag; j >= 0 && j < churn {
+			if err := t.Delete(churnKey(j)); err != nil {
+				return fmt.Errorf("one bstree with %d resident keys: Delete(%d) of a present key returned %v after %d removals", res, churnKey(j), err, removed)
+			}
+			live--
+			removed++
+			near := false
+			for _, m := range []int{4096, 32768, 65536, 131072} {
+				if removed >= m-2 && removed <= m+2 {
+					near = true
+				}
+			}
+			if near || removed%4096 == 0 {
+				if err := check(removed); err != nil {
+					return err
+				}
+			}
+		}
+	}
+	if err := check(removed); err != nil {
+		return err
+	}
+	r.NonTrivialIf(removed >= 4096, ">= 4096 removals on the one tree")
+	if removed >= 65536 {
+		r.Label(">= 65536 removals")
+	}
+	return nil
+}
+
 func TestProp(t *testing.T) {
 	// A Traverse hands every item from an internal goroutine to the caller; with
 	// 16 shard processes on the machine a small GOMAXPROCS avoids the cost of
@@ -1029,7 +1120,7 @@ func TestProp(t *testing.T) {
 		&pbt.Check[TypesCase]{
 			Name: "types",
 			Rule: "the same ordered-map semantics on other instantiations: bstree.New[K, struct] with K = string ascending, float64 descending (negative, zero, fractional keys), uint8, strings ordered by (length, bytes), float64 keys compared by their integer part only (a strict weak order with ties: equivalent keys are one key), float64 keys under (value, then sign bit), where -0.0 and +0.0 are two keys although == calls them equal, and float64 keys that are neighbouring representable values; random Upsert/Delete/Get sequences of up to 150 (600) operations over 3..80 keys against a Go map: results of every call, Size after every call (subject to the known finding), Traverse in comparator order at the end. Non-trivial = >= 3 keys at the end.",
-			Gen: typesGen, Prop: typesProp, OutOfEnum: func(TypesCase, bool) bool { return true },
+			Gen:  typesGen, Prop: typesProp, OutOfEnum: func(TypesCase, bool) bool { return true },
 			RapidQuick: 400, RapidThorough: 5000,
 		},
 		&pbt.Check[TravCase]{
@@ -1038,6 +1129,20 @@ func TestProp(t *testing.T) {
 				"(Whether an odd key is seen is up to the interleaving.) Non-trivial = every case.",
 			Gen: travGen, Prop: travProp, OutOfEnum: func(TravCase, bool) bool { return true },
 			RapidQuick: 8, RapidThorough: 100,
+		},
+		&pbt.Check[EnduranceCase]{
+			Name: "endurance",
+			Rule: "ONE tree with 1..200 resident keys lives through up to 70000 (thorough 140000) insertions and removals of short-lived keys (ascending, descending or scattered; each removed 1..64 insertions after its own; either comparator): every Delete of a present key succeeds, and at checkpoints (every 4096 removals and after each removal within 2 of the 4096th, 32768th, 65536th, 131072nd) Size, Get of every resident key and the number of items Traverse visits are right. Fixed: 70000 removals with 8 residents; random: a few more. Non-trivial = at least 4096 removals.",
+			Gen: func(s pbt.Src, thorough bool) EnduranceCase {
+				churn := pbt.Pick(s, 5000, 9000, 70000)
+				if thorough {
+					churn = pbt.Pick(s, 9000, 70000, 140000)
+				}
+				return EnduranceCase{Resident: pbt.Pick(s, 1, 2, 8, 100), Churn: churn, Lag: 1 + s.Intn(64), Order: s.Intn(3), Desc: pbt.Bool(s)}
+			},
+			Prop: enduranceProp, OutOfEnum: func(EnduranceCase, bool) bool { return true },
+			Fixed:      []EnduranceCase{{Resident: 8, Churn: 70000, Lag: 4, Order: 2}, {Resident: 1, Churn: 70000, Lag: 1, Order: 0, Desc: true}},
+			RapidQuick: 4, RapidThorough: 40,
 		},
 	)
 }
